@@ -16,12 +16,15 @@ thread_local! {
     /// joined file of the "outer" kind for the case being checked (kept out of the many call sites of `execute`)
     static OUTER_JOINED: std::cell::RefCell<Vec<u8>> = const { std::cell::RefCell::new(Vec::new()) };
     static PIPE_INPUTS: std::cell::Cell<bool> = const { std::cell::Cell::new(false) };
+    static LIMIT: std::cell::Cell<Option<usize>> = const { std::cell::Cell::new(None) };
 }
 
-const DEFS: &str = "CREATE TABLE raw(line = '(.*)', line[1] => x TEXT); CREATE TABLE j(line = '(.*)', line[1] => y TEXT);";
+const DEFS: &str = "CREATE TABLE raw(line = '(.*)', line[1] => x TEXT); CREATE TABLE j(line = '(.*)', line[1] => y TEXT); CREATE TABLE sp(line = split ';;;', line[1] => first TEXT, line[2] => second TEXT);";
 
 fn stmt_for(kind: &str) -> &'static str {
     match kind {
+        // a table made of split patterns only: every line is a row, with or without the separator in it
+        "split" => "SELECT input FROM sp",
         "count" => "SELECT COUNT(*) FROM raw",
         "join" => "SELECT j.y FROM raw INNER JOIN j::'/simfs/joined.log' ON raw.x = j.y",
         "outer" => "SELECT raw.x FROM raw OUTER JOIN j::'/simfs/joined.log' ON raw.x = j.y",
@@ -120,7 +123,13 @@ impl C12 {
     #[allow(clippy::too_many_arguments)]
     fn execute(&self, out: &mut Outcome, label: &str, kind: &str, files: &[Vec<u8>], steps: &[Step], read_mode: &crate::seam::ReadMode, want_trace: bool, features: &J) -> Option<Run> {
         let pipe = PIPE_INPUTS.with(|p| p.get());
-        let mut spec = if kind == "outer" {
+        let limit = LIMIT.with(|l| l.get());
+        let mut spec = if let (Some(n), "input") = (limit, kind) {
+            let mut s = batch_spec(DEFS, &format!("SELECT input FROM raw LIMIT {}", n), files, None);
+            s.steps = steps.to_vec();
+            s.read_mode = read_mode.clone();
+            s
+        } else if kind == "outer" {
             let joined = OUTER_JOINED.with(|j| j.borrow().clone());
             let mut s = batch_spec(DEFS, stmt_for(kind), files, Some(&joined));
             s.steps = steps.to_vec();
@@ -182,7 +191,7 @@ impl Property for C12 {
     fn generate(&self, rng: &mut Rng, thorough: bool) -> J {
         let _thorough = thorough;
         let variant = *rng.pick(&["transparent", "transparent", "concat", "badbyte", "badbyte", "eio"]);
-        let kind = *rng.pick(&["input", "input", "count", "join", "outer"]);
+        let kind = *rng.pick(&["input", "input", "count", "join", "outer", "split"]);
         let n_files = if kind == "join" { 1 } else { rng.range(1, 4) as usize };
         // size regime: a file with thousands of lines (beyond any per-batch constant such as 1024 / 4096)
         let many_lines = (kind == "input" || kind == "count") && rng.chance(if _thorough { 20 } else { 4 }, 1000);
@@ -270,6 +279,8 @@ impl Property for C12 {
             "bad_style": rng.below(3),
             // the inputs are pipes / FIFOs (what `--stdin` gives): no size in the metadata, not seekable
             "pipe": rng.chance(1, 8),
+            // input kind only: SELECT input ... LIMIT n (the lines after the n-th are legitimately not presented)
+            "limit": if kind == "input" && rng.chance(1, 4) { json!(rng.range(1, 12)) } else { J::Null },
             // outer kind: the joined file may be empty, hold only non-matching text, or hold partners for some lines
             "outer_joined": enc(["", "", "zzz-no-partner\n", "a\n", "a\nb\na\n"][rng.below(5)].as_bytes()),
         })
@@ -281,6 +292,7 @@ impl Property for C12 {
         bytes_array_field(case, "files", &mut out);
         bytes_field(case, "outer_joined", &mut out);
         bool_field(case, "pipe", false, &mut out);
+        set_field(case, "limit", J::Null, &mut out);
         steps_field(case, "steps", &mut out);
         set_field(case, "read_mode", json!("bulk"), &mut out);
         set_field(case, "kind", json!("input"), &mut out);
@@ -296,6 +308,9 @@ impl Property for C12 {
         let outer_joined = jbytes(case, "outer_joined");
         OUTER_JOINED.with(|j| *j.borrow_mut() = outer_joined.clone());
         PIPE_INPUTS.with(|p| p.set(jbool(case, "pipe")));
+        let limit: Option<usize> = if kind == "input" { case.get("limit").and_then(|x| x.as_u64()).map(|x| x as usize) } else { None };
+        LIMIT.with(|l| l.set(limit));
+        out.probe("with_limit", limit.is_some() as u64);
         out.probe("inputs_are_pipes", jbool(case, "pipe") as u64);
         let mut files = jbytes_list(case, "files");
         if files.is_empty() {
@@ -341,7 +356,11 @@ impl Property for C12 {
         } else {
             m.clone()
         };
-        let expected_total: u64 = if kind == "join" { model_lines(&join_plan(&m).0).len() as u64 } else { n as u64 };
+        let expected_values: Vec<Vec<u8>> = match limit {
+            Some(l) => expected_values.into_iter().take(l).collect(),
+            None => expected_values,
+        };
+        let expected_total: u64 = if kind == "join" { model_lines(&join_plan(&m).0).len() as u64 } else { limit.map(|l| l.min(n)).unwrap_or(n) as u64 };
 
         // --- the fault-transparent run (every variant starts with it)
         let base = match self.execute(&mut out, "base", &kind, &files, &steps, &read_mode, want_trace, &features) {
@@ -462,7 +481,11 @@ impl Property for C12 {
                                 } else {
                                     let mut m2 = m.clone();
                                     m2.remove(b);
-                                    (m2, b)
+                                    if let Some(l) = limit {
+                                        // with a LIMIT the run may legitimately stop before it ever meets the bad line
+                                        m2.truncate(l);
+                                    }
+                                    (m2, if limit.is_some() { usize::MAX } else { b })
                                 };
                                 let ok_without = values == exp_without;
                                 let ok_with = exp_pos != usize::MAX && values.len() == exp_without.len() + 1 && values[..exp_pos] == exp_without[..exp_pos] && values[exp_pos + 1..] == exp_without[exp_pos..];
@@ -478,7 +501,7 @@ impl Property for C12 {
                             (Status::Err(_), "count") => {}
                             (Status::Err(_), _) => {
                                 let values = r.values.clone().unwrap_or_default();
-                                let lim: Vec<Vec<u8>> = if kind == "join" { expected_values.clone() } else { m[..b].to_vec() };
+                                let lim: Vec<Vec<u8>> = if kind == "join" { expected_values.clone() } else { m[..b].iter().take(limit.unwrap_or(usize::MAX)).cloned().collect() };
                                 if !is_prefix(&values, &lim) {
                                     out.violate("c12.wrong_lines", format!("undecodable line #{}: error reported but the records before it {} are not a prefix of the model {}", b, lossy(&values), lossy(&lim)), features.clone());
                                 }
